@@ -14,6 +14,9 @@
 #include "util/fixed_array.hh"
 #include "util/pcqueue.hh" // Semaphore
 #include "util/scoped.hh"
+#ifdef PREPROCESS_VERIF
+#include "util/verif_hooks.hh"
+#endif
 
 #include <cassert>
 #include <cstring>
@@ -118,11 +121,26 @@ template <class Writer> class ThreadedBufferedStream : public FakeOStream<Thread
         current_(lease_.Base()),
         end_(current_ + BlockQueue::kBlockSize),
         writer_(std::forward<Args>(args)...) {
+#ifdef PREPROCESS_VERIF
+      PREPROCESS_VERIF_THREAD_SPAWN();
+#endif
       thread_ = std::thread([this]() {
+#ifdef PREPROCESS_VERIF
+          PREPROCESS_VERIF_THREAD_BEGIN();
+#endif
           for (BlockQueue::Lease lease(queue_.Out()); lease.Size(); lease.SuccessNext()) {
+#ifdef PREPROCESS_VERIF
+            PREPROCESS_VERIF_YIELD("tbs.writer.write");
+#endif
             writer_.write(lease.Base(), lease.Size());
           }
+#ifdef PREPROCESS_VERIF
+          PREPROCESS_VERIF_YIELD("tbs.writer.flush");
+#endif
           writer_.flush();
+#ifdef PREPROCESS_VERIF
+          PREPROCESS_VERIF_THREAD_END();
+#endif
         });
     }
 
@@ -131,6 +149,9 @@ template <class Writer> class ThreadedBufferedStream : public FakeOStream<Thread
       // Poison.
       lease_.Size() = 0;
       lease_.SuccessNext();
+#ifdef PREPROCESS_VERIF
+      PREPROCESS_VERIF_THREAD_JOIN();
+#endif
       thread_.join();
     }
 
@@ -140,12 +161,18 @@ template <class Writer> class ThreadedBufferedStream : public FakeOStream<Thread
     ThreadedBufferedStream<Writer> &write(const void *data_void, std::size_t length) {
       const char *data = static_cast<const char*>(data_void);
       while (UTIL_UNLIKELY(current_ + length > end_)) {
+#ifdef PREPROCESS_VERIF
+        PREPROCESS_VERIF_YIELD("tbs.write.fill");
+#endif
         std::memcpy(current_, data, end_ - current_);
         data += end_ - current_;
         length -= (end_ - current_);
         current_ = end_;
         SpillBuffer();
       }
+#ifdef PREPROCESS_VERIF
+      PREPROCESS_VERIF_YIELD("tbs.write.rest");
+#endif
       std::memcpy(current_, data, length);
       current_ += length;
       return *this;
